@@ -158,7 +158,9 @@ def m_aho_iter(ex, callee, args):
     cap = S.parts(h)[2]
     cands = []
     for p, n in enumerate(a.needles):
-        ln = len(n)
+        ln = S.parts(n)[1]
+        if not isinstance(ln, int):
+            raise Unsupported('aho-corasick model needs needles of concrete length')
         for s in range(0, cap - ln + 1):
             cands.append((p, s, s + ln))
     order = getattr(ex.uni, 'aho_order', 'end')
